@@ -1475,10 +1475,29 @@ def run_cases(ctx, replay, corpus_only=False):
             sp.update(resume=rng.choice(["same", "moved", "moved"]), more_results=rng.randint(2, 15),
                       max_results=rng.randint(2, 10), rui=rng.choice([0, 10.0, 10.0, -1]))
             specs.append(sp)
+        for i in range(ctx.n(16, 200)):  # the experiment is run AGAIN under the same fixed name (fresh objects)
+            sp = gen_run_spec(rng, 20000 + i)
+            sp.pop("faults", None)
+            how = rng.choice(["stop_at_once", "stop_at_once", "never_report", "one", "several"])
+            sp["rerun"] = {"stop_at_once": dict(max_results=0), "never_report": dict(chunks=[0], max_loops=4),
+                           "one": dict(max_results=1),
+                           "several": dict(max_results=rng.randint(2, 8))}[how]
+            sp["rerun"]["seed"] = sp["seed"] + 1
+            sp["max_results"] = max(sp["max_results"], 4)
+            specs.append(sp)
     terms, meta = [], []
     for i, spec in enumerate(specs):
         case = dict(kind="run", spec=spec)
-        obs = run_resumed(ctx, spec) if spec.get("resume") else run_whole(ctx, spec)
+        if spec.get("rerun"):
+            # first run under the fixed name stores its table; then fresh scheduler / backend / callbacks / Tuner in
+            # the same experiment directory: what is read back afterwards must be the table of the LAST run only
+            first = run_whole(ctx, dict(spec, rerun=None))
+            obs = run_whole(ctx, dict(spec, rerun=None, **spec["rerun"]))
+            ctx.h("run_rerun", "first run %s rows, second run %s" % (
+                "some" if first["rows"] else "no", "0 rows" if not obs["rows"] else "1 row" if len(obs["rows"]) == 1
+                else "several rows"))
+        else:
+            obs = run_resumed(ctx, spec) if spec.get("resume") else run_whole(ctx, spec)
         shutil.rmtree(os.path.join(_TMP_ROOT, spec["name"]), ignore_errors=True)
         sched = spec["kind"]
         split = obs.get("split")
@@ -1552,7 +1571,9 @@ def run(ctx, replay=None):
                 "TuningStatus; run cases: whole Tuner.run() with a harness-side in-memory backend and FIFO/Hyperband/"
                 "scripted schedulers, results.csv.zip read back with load_experiment; also runs with save_tuner that are "
                 "interrupted, loaded back with Tuner.load (same results root, or experiment directory copied to another "
-                "SYNETUNE_FOLDER) and continued with a larger budget. non-trivial = at least 2 "
+"SYNETUNE_FOLDER) and continued with a larger budget, and experiments run a second time under the same "
+                "fixed name (second run with 0, 1 or several results; the table read back must be the last run's). "
+                "non-trivial = at least 2 "
                 "delivered results, 2 trials and a tie or a NaN/inf/non-numeric value (seq), or a run with >= 3 rows "
                 "and >= 2 trials (run); distinct by content hash")
     try:
